@@ -22,7 +22,7 @@
    "trim"
   ]
  },
- "detail": "C04: test_x_cls.py: modified although every test in it is marked xfail\ntest_x_mod.py: modified although every test in it is marked xfail\n--- session output (tail)\nPASSED test_t.py::test_mixed\nPASSED test_t.py::test_loop_fix\nPASSED test_t.py::test_second_wrong\nXFAIL test_x.py::test_x_create\nXFAIL test_x.py::test_x_fix\nXFAIL test_x_cls.py::TestX::test_x_cls_create\nXFAIL test_x_cls.py::TestX::test_x_cls_fix\nXFAIL test_x_mod.py::test_x_mod_create\nXFAIL test_x_mod.py::test_x_mod_fix\nXPASS test_x_cls.py::TestX::test_x_cls_create\nXPASS test_x_cls.py::TestX::test_x_cls_fix\nXPASS test_x_mod.py::test_x_mod_create\nXPASS test_x_mod.py::test_x_mod_fix\nERROR test_t.py::test_create - Failed: your snapshot is missing one value.\nERROR test_t.py::test_fix - Failed: some snapshots in this test have incorrec...\nERROR test_t.py::test_in_create - Failed: your snapshot is missing one value.\nERROR test_t.py::test_in_fix - Failed: some snapshots in this test have incor...\nERROR test_t.py::test_ge_fix - Failed: some snapshots in this test have incor...\nERROR test_t.py::test_le_fix - Failed: some snapshots in this test have incor...\nERROR test_t.py::test_key_create - Failed: your snapshot is missing 2 values.\nERROR test_t.py::test_key_fix - Failed: some snapshots in this test have inco...\nERROR test_t.py::test_mixed - Failed: some snapshots in this test have incorr...\nERROR test_t.py::test_loop_fix - Failed: some snapshots in this test have inc...\nERROR test_t.py::test_second_wrong - Failed: some snapshots in this test have...\n============= 18 passed, 6 xfailed, 4 xpassed, 11 errors in 1.72s =============="
+ "detail": "C04: test_x_cls.py: modified although every test in it is marked xfail\ntest_x_mod.py: modified although every test in it is marked xfail\n--- session output (tail)\nPASSED test_t.py::test_mixed\nPASSED test_t.py::test_loop_fix\nPASSED test_t.py::test_second_wrong\nXFAIL test_x.py::test_x_create\nXFAIL test_x.py::test_x_fix\nXFAIL test_x_cls.py::TestX::test_x_cls_create\nXFAIL test_x_cls.py::TestX::test_x_cls_fix\nXFAIL test_x_mod.py::test_x_mod_create\nXFAIL test_x_mod.py::test_x_mod_fix\nXPASS test_x_cls.py::TestX::test_x_cls_create\nXPASS test_x_cls.py::TestX::test_x_cls_fix\nXPASS test_x_mod.py::test_x_mod_create\nXPASS test_x_mod.py::test_x_mod_fix\nERROR test_t.py::test_create - Failed: your snapshot is missing one value.\nERROR test_t.py::test_fix - Failed: some snapshots in this test have incorrec...\nERROR test_t.py::test_in_create - Failed: your snapshot is missing one value.\nERROR test_t.py::test_in_fix - Failed: some snapshots in this test have incor...\nERROR test_t.py::test_ge_fix - Failed: some snapshots in this test have incor...\nERROR test_t.py::test_le_fix - Failed: some snapshots in this test have incor...\nERROR test_t.py::test_key_create - Failed: your snapshot is missing 2 values.\nERROR test_t.py::test_key_fix - Failed: some snapshots in this test have inco...\nERROR test_t.py::test_mixed - Failed: some snapshots in this test have incorr...\nERROR test_t.py::test_loop_fix - Failed: some snapshots in this test have inc...\nERROR test_t.py::test_second_wrong - Failed: some snapshots in this test have...\n============= 18 passed, 6 xfailed, 4 xpassed, 11 errors in 7.23s =============="
 }
 """
 
